@@ -60,9 +60,19 @@ def grep_gate(files=None):
         if os.sep + 'gen' + os.sep in p and False:
             continue
         text = strip_comments(open(p, encoding='utf-8').read())
+        sections = []
         for n, line in enumerate(text.split('\n'), 1):
             if FORBIDDEN.search(line):
                 hits.append('%s:%d: %s' % (os.path.relpath(p, ROOT), n, line.strip()))
+            # a Variable / Hypothesis / Context outside a Section declares an axiom
+            for m in re.finditer(r'\b(Section|End)\s+(\w+)\s*\.|\b(Variables?|Hypothes[ie]s|Context)\b', line):
+                if m.group(1) == 'Section':
+                    sections.append(m.group(2))
+                elif m.group(1) == 'End':
+                    if sections and sections[-1] == m.group(2):
+                        sections.pop()
+                elif not sections:
+                    hits.append('%s:%d: %s outside a Section: %s' % (os.path.relpath(p, ROOT), n, m.group(3), line.strip()))
     return hits
 
 
